@@ -82,6 +82,7 @@ class _Pass(ast.NodeTransformer):
         self.stack = []
         self.loop_counter = {}
         self.applied = []
+        self._fn_locals = [set()]
 
     # -- helpers
     def qual(self):
@@ -105,7 +106,10 @@ class _Pass(ast.NodeTransformer):
         for arg in a.args + a.kwonlyargs + a.posonlyargs + ([a.vararg] if a.vararg else []) + ([a.kwarg] if a.kwarg else []):
             arg.annotation = None
         self.loop_counter[q] = 0
+        params = [x.arg for x in a.args + a.kwonlyargs + a.posonlyargs] + ([a.vararg.arg] if a.vararg else []) + ([a.kwarg.arg] if a.kwarg else [])
+        self._fn_locals.append(set(params) | set(_assigned_names(node.body)))
         self.generic_visit(node)
+        self._fn_locals.pop()
         # T6 opaque cuts
         names = self.cuts.get(q)
         if names:
@@ -163,25 +167,34 @@ class _Pass(ast.NodeTransformer):
         if label is None:
             return node
         assigned = _assigned_names(node.body)
+        tgt_names = []
         if isinstance(node, ast.For):
-            for nm in _assigned_names([ast.Assign(targets=[node.target], value=ast.Constant(0))]):
-                if nm in assigned:
-                    assigned.remove(nm)
+            tgt_names = _assigned_names([ast.Assign(targets=[node.target], value=ast.Constant(0))])
+            assigned = [a for a in assigned if a not in tgt_names]
+        # names read in the body or test (for invariants over read-only locals); only `assigned` ones are havoced
+        read = []
+        for st in node.body + ([node.test] if isinstance(node, ast.While) else []):
+            for n in ast.walk(st):
+                if isinstance(n, ast.Name) and isinstance(n.ctx, ast.Load) and n.id not in read and n.id not in assigned \
+                        and n.id not in tgt_names and n.id in self._fn_locals[-1]:
+                    read.append(n.id)
         # one closure per local: a local may still be unbound at loop entry
-        lam = ast.parse("{" + ",".join(f"{a!r}: (lambda: {a})" for a in assigned) + "}", mode="eval").body
+        lam = ast.parse("{" + ",".join(f"{a!r}: (lambda: {a})" for a in assigned + read) + "}", mode="eval").body
+        order = ast.parse(repr(tuple(assigned)), mode="eval").body
+        if isinstance(node, ast.While):
+            # while test: body  ==>  for _ in cut(label, forever): havoc; if not test: break; body
+            brk = ast.If(test=ast.UnaryOp(op=ast.Not(), operand=node.test), body=[ast.Break()], orelse=[])
+            new = ast.For(target=ast.Name("_pyvc_w", ast.Store()), iter=ast.Call(func=ast.Attribute(value=ast.Name("_pyvc", ast.Load()), attr="forever", ctx=ast.Load()), args=[], keywords=[]),
+                          body=[brk] + node.body, orelse=[], lineno=node.lineno, col_offset=node.col_offset)
+            node = new
+        node.iter = ast.Call(func=ast.Attribute(value=ast.Name("_pyvc", ast.Load()), attr="cut", ctx=ast.Load()),
+                             args=[ast.Constant(label), node.iter, lam, order], keywords=[])
         out = [node]
-        if isinstance(node, ast.For):
-            node.iter = ast.Call(func=ast.Attribute(value=ast.Name("_pyvc", ast.Load()), attr="cut", ctx=ast.Load()),
-                                 args=[ast.Constant(label), node.iter, lam], keywords=[])
-        else:  # while: guard wrapped
-            node.test = ast.Call(func=ast.Attribute(value=ast.Name("_pyvc", ast.Load()), attr="cut_while", ctx=ast.Load()),
-                                 args=[ast.Constant(label), ast.Lambda(args=ast.arguments(posonlyargs=[], args=[], kwonlyargs=[], kw_defaults=[], defaults=[]), body=node.test), lam], keywords=[])
         if assigned:
-            hv = f"({', '.join(assigned)},) = _pyvc.havoc_locals({label!r}, ({', '.join(assigned)},))" if False else \
-                 f"({', '.join(assigned)},) = _pyvc.havoc_locals({label!r})"
+            hv = f"({', '.join(assigned)},) = _pyvc.havoc_locals({label!r})"
             node.body.insert(0, ast.parse(hv).body[0])
             out.append(ast.parse(hv.replace("havoc_locals", "exit_locals")).body[0])
-        self.applied.append(f"T5 {q}: loop #{ordinal} cut as {label!r}, havoc {assigned}")
+        self.applied.append(f"T5 {q}: loop #{ordinal} cut as {label!r}, havoc {assigned}, readable {read}")
         return out
 
     def visit_For(self, node):
